@@ -13,15 +13,15 @@ import (
 )
 
 type uDef struct {
-	Name    string            `json:"name"`
-	Key     string            `json:"key"` // oneOf | anyOf
-	Members []string          `json:"members"`
-	Mapping map[string]string `json:"mapping"` // value -> member (explicit entries); nil = no discriminator
-	Disc    bool              `json:"discriminator"`
-	Fixed   bool              `json:"fixed_properties"`
-	Addl    bool              `json:"additional_properties"`
-	DiscProp string           `json:"discriminator_is_fixed_property"` // "" | required | optional
-	Pkg     string            `json:"pkg"`
+	Name     string            `json:"name"`
+	Key      string            `json:"key"` // oneOf | anyOf
+	Members  []string          `json:"members"`
+	Mapping  map[string]string `json:"mapping"` // value -> member (explicit entries); nil = no discriminator
+	Disc     bool              `json:"discriminator"`
+	Fixed    bool              `json:"fixed_properties"`
+	Addl     bool              `json:"additional_properties"`
+	DiscProp string            `json:"discriminator_is_fixed_property"` // "" | required | optional
+	Pkg      string            `json:"pkg"`
 }
 
 var uMembers = map[string]map[string]any{
@@ -197,13 +197,13 @@ func runC09(r *Report, rng *rand.Rand, thorough bool) {
 	}
 	var scenarios []map[string]any
 	type meta struct {
-		u            uDef
-		kind         string
-		i, j         int
-		member, m2   map[string]any
-		discValue    string
-		fixed        map[string]any
-		init         map[string]any
+		u          uDef
+		kind       string
+		i, j       int
+		member, m2 map[string]any
+		discValue  string
+		fixed      map[string]any
+		init       map[string]any
 	}
 	metas := map[string]meta{}
 	add := func(id string, u uDef, init any, ops []map[string]any, m meta) {
